@@ -268,6 +268,13 @@ impl Run {
             .ok()
             .and_then(|t| serde_json::from_str(&t).ok())
             .unwrap_or_default();
+        let mut known = known;
+        // extra known-finding entries used while a check is being developed (never by registered commands)
+        if let Ok(extra) = std::env::var("VERIF_KNOWN_EXTRA") {
+            if let Some(k) = std::fs::read_to_string(&extra).ok().and_then(|t| serde_json::from_str::<KnownFile>(&t).ok()) {
+                known.findings.extend(k.findings);
+            }
+        }
         let replay = args.replay.as_ref().map(|p| {
             serde_json::from_str::<ReplayFile>(&std::fs::read_to_string(p).unwrap()).unwrap()
         });
